@@ -54,6 +54,8 @@ def gen_cases(tier):
             # a dividend guarantee over two inputs it shares with the divisor; the assumptions meet in one point (degenerate LP optimum
             # for tactic 5, which is tried first)
             a = {v: rng.choice([1, 2, 3]) * rng.choice([1, 1, 1, -1]) for v in ("y", "z")}
+            if rng.random() < 0.5:
+                a = {"y": 1, "z": 1}
             rows, px = gen.degenerate_rows(rng, ["y", "z"], None, with_point=True)
             top = {"inv": ["y", "z"], "outv": ["o"], "a": rows, "g": [(dict(a, o=rng.choice([1, 2])), rng.randint(2, 10))]}
             # the divisor's guarantees pass through the same point and mention a variable the quotient keeps
